@@ -1,8 +1,8 @@
 (* Enumeration of all rooted ordered trees with a given number of nodes (pre-order
-   labelled 0..n-1), and the executable checkers used by the bounded companions of the
-   C17 clauses that are not (yet) proved for all trees.  Definitions only. *)
+   labelled 0..n-1), and the executable checker used by the bounded companion of the
+   one C17 clause that is not (yet) proved for all trees (edge crossings of the sweep).  Definitions only. *)
 From Coq Require Import List Arith Bool.
-From PTN Require Import Tree.RTree Tree.Nav Tree.UpdatePath Tree.CachePath.
+From PTN Require Import Tree.RTree Tree.Nav Tree.UpdatePath.
 Import ListNotations.
 
 (* ---- enumeration ------------------------------------------------------------------ *)
@@ -77,58 +77,3 @@ Definition check_crossings (t : rtree) : bool :=
               end
   | None => false
   end.
-
-(* ---- the cache of a TDVP run ------------------------------------------------------ *)
-(* one block per edge: every tree edge is the support of exactly one key, and there are
-   no other keys *)
-Definition check_cache_edges (t : rtree) (keys : list (nat * nat)) : bool :=
-  Nat.eqb (length keys) (length (edges t)) &&
-  forallb (fun e => Nat.eqb (crossings e keys) 1) (edges t).
-
-(* every block (n, m) points toward `first`: m is the second node of the path n -> first *)
-Definition check_cache_direction (t : rtree) (first : nat) (keys : list (nat * nat)) : bool :=
-  forallb (fun k => match path_from_to t (fst k) first with
-                    | Some (n :: m :: _) => Nat.eqb n (fst k) && Nat.eqb m (snd k)
-                    | _ => false
-                    end) keys.
-
-Definition has_pair (p : nat * nat) (l : list (nat * nat)) : bool :=
-  existsb (fun q => Nat.eqb (fst p) (fst q) && Nat.eqb (snd p) (snd q)) l.
-
-(* the block (n, m) is contracted from the blocks (j, n) of the other neighbours j of n:
-   they must have been created before it *)
-Fixpoint check_cache_order (t : rtree) (done keys : list (nat * nat)) : bool :=
-  match keys with
-  | [] => true
-  | (n, m) :: r =>
-      forallb (fun j => Nat.eqb j m || has_pair (j, n) done) (neighbours t n) &&
-      check_cache_order t ((n, m) :: done) r
-  end.
-
-Definition check_cache (t : rtree) : bool :=
-  match update_path t, tdvp_cache_keys t with
-  | Some (u :: _), Some keys =>
-      check_cache_edges t keys && check_cache_direction t u keys && check_cache_order t [] keys
-  | _, _ => false
-  end.
-
-(* the same for an arbitrary left-out node *)
-Definition check_cache_any (t : rtree) : bool :=
-  forallb (fun u => match cache_keys t u with
-                    | Some keys => check_cache_edges t keys && check_cache_direction t u keys && check_cache_order t [] keys
-                    | None => false
-                    end) (ids t).
-
-(* ---- distances from an arbitrary centre ------------------------------------------- *)
-Definition opt_nat_eqb (a b : option nat) : bool :=
-  match a, b with Some x, Some y => Nat.eqb x y | None, None => true | _, _ => false end.
-
-Definition check_distances (t : rtree) : bool :=
-  forallb (fun c => match distance_to_node t c with
-                    | Some d => Nat.eqb (length d) (size t) &&
-                                forallb (fun x => match assoc x d with
-                                                  | Some k => opt_nat_eqb (tree_dist t c x) (Some k)
-                                                  | None => false
-                                                  end) (ids t)
-                    | None => false
-                    end) (ids t).
